@@ -421,3 +421,6 @@ func Base58(in []byte) string {
 	}
 	return string(out)
 }
+
+// MustJCSString is MustJCS as string.
+func MustJCSString(v interface{}) string { return string(MustJCS(v)) }
